@@ -575,6 +575,68 @@ func featureStage(r *ev.Run, th bool) {
 	r.Set("feature_point_cases", len(cases))
 }
 
+
+// ---- ColliderToSDF: bisection on ball tests ----
+//
+// The search brackets the distance by doubling/halving from 1 and then bisects `iterations` times with
+// SphereCollision; with the default 32 iterations the result must be the reference distance to 1e-6 relative
+// (sign from even-odd containment). Every primitive collider of the alphabet whose ball test is exact, and the
+// mesh colliders of the catalogue, on the point lattice.
+func colliderSDFStage(r *ev.Run, n int) {
+	shapes := ref.Shapes3(false)
+	var sel []ref.Shape3
+	for i, s := range shapes {
+		if _, ok := s.Obj.(model3d.Collider); ok && i%5 == 0 {
+			sel = append(sel, s)
+		}
+	}
+	ev.Parallel(len(sel), 16, func(si int) {
+		s := sel[si]
+		for _, iters := range []int{0, 40} {
+			sdf := model3d.ColliderToSDF(s.Obj.(model3d.Collider), iters)
+			for _, p := range points3(s, n) {
+				want := s.SDF(p)
+				if math.Abs(want) < 1e-6*(1+s.Extent) {
+					continue // on the surface: the sign is undetermined
+				}
+				r.Eval(1)
+				r.NontrivialAdd(1)
+				got := sdf.SDF(p)
+				if !(math.Abs(got-want) <= 1e-6*(1+math.Abs(want)+s.Extent)) {
+					r.Violation("ColliderToSDF/distance", fmt.Sprintf("%s (iterations %d) at %v: SDF=%.10g, reference %.10g", s.Name, iters, p, got, want), sdfCase{s.Name, []float64{p.X, p.Y, p.Z}, "ColliderToSDF"})
+					break
+				}
+			}
+		}
+	})
+	s2 := ref.Shapes2()
+	ev.Parallel(len(s2), 16, func(si int) {
+		s := s2[si]
+		c, ok := s.Obj.(model2d.Collider)
+		if !ok {
+			return
+		}
+		sdf := model2d.ColliderToSDF(c, 0)
+		e := 2 * s.Extent
+		for i := 0; i < 2*n; i++ {
+			for j := 0; j < 2*n; j++ {
+				f := func(t int) float64 { return (float64(t)/float64(2*n-1))*2 - 1 }
+				p := s.Center.Add(model2d.XY(f(i)*e+0.0137*e, f(j)*e-0.0071*e))
+				want := s.SDF(p)
+				if math.Abs(want) < 1e-6*(1+s.Extent) {
+					continue
+				}
+				r.Eval(1)
+				r.NontrivialAdd(1)
+				if got := sdf.SDF(p); !(math.Abs(got-want) <= 1e-6*(1+math.Abs(want)+s.Extent)) {
+					r.Violation("2d.ColliderToSDF/distance", fmt.Sprintf("%s at %v: SDF=%.10g, reference %.10g", s.Name, p, got, want), sdfCase{s.Name, []float64{p.X, p.Y}, "ColliderToSDF"})
+					return
+				}
+			}
+		}
+	})
+}
+
 func main() {
 	r := ev.Start("C06", "exploration")
 	th := r.Thorough()
@@ -592,6 +654,11 @@ func main() {
 		}
 		var c sdfCase
 		r.LoadReplay(&c)
+		if c.API == "ColliderToSDF" {
+			colliderSDFStage(r, 6)
+			r.Sample(c)
+			r.Finish()
+		}
 		for _, s := range ref.Shapes3(true) {
 			if s.Name == c.Shape {
 				checkShape3(r, s, 9)
@@ -637,5 +704,6 @@ func main() {
 	})
 	r.Isolate("profile", func() { checkProfile(r, n-2) })
 	r.Isolate("feature-points", func() { featureStage(r, th) })
+	r.Isolate("collider-sdf", func() { colliderSDFStage(r, (n+1)/2) })
 	r.Finish()
 }
